@@ -1038,7 +1038,6 @@ func verifPartitionSMF(m Message) (n int) {
 // WriteTo: chunk framing = 4 byte type, big-endian 32 bit body length, body, in one Write; n = bytes accepted;
 // a failing destination is reported
 //@ func (*chunk).WriteTo
-//@ inline
 //@ requires wr != nil && len(c.data) < 2147483648 && wr.wlen >= 0
 //@ modifies wr.wdata, wr.wlen, wr.wfailed
 //@ ensures [P:C03] len(c.typ) == 4 ==> (result0 == int64(wr.wlen - old(wr.wlen)) && wr.wlen >= old(wr.wlen) && wr.wlen <= old(wr.wlen) + 8 + len(c.data))
@@ -1077,7 +1076,6 @@ func verifPartitionSMF(m Message) (n int) {
 //@ macro mtq(tf) = (uint16(bval(tf)) == 0 ? 960 : (uint16(bval(tf)) > 32767 ? 32767 : uint16(bval(tf))))
 
 //@ func (*writer).writeTimeFormat
-//@ inline
 //@ requires wr != nil && w.SMF != nil && wr.wlen >= 0
 //@ modifies wr.wdata, wr.wlen, wr.wfailed
 //@ ensures [P:C10] !wr.wmayfail && (typeof(w.SMF.TimeFormat) == typeid(MetricTicks) || typeof(w.SMF.TimeFormat) == typeid(TimeCode)) ==> result == nil
@@ -1091,7 +1089,6 @@ func verifPartitionSMF(m Message) (n int) {
 
 // header chunk: "MThd" 00 00 00 06 <format> <ntrks> <division>, 14 bytes in one Write
 //@ func (*writer).writeHeader
-//@ inline
 //@ requires wr != nil && w.SMF != nil && wr.wlen >= 0
 //@ modifies wr.wdata, wr.wlen, wr.wfailed
 //@ ensures [P:C10] result == nil ==> (wr.wlen == old(wr.wlen) + 14 && wr.wfailed == old(wr.wfailed))
@@ -1105,7 +1102,7 @@ func verifPartitionSMF(m Message) (n int) {
 //@ ensures [P:C01] result == nil && typeof(w.SMF.TimeFormat) == typeid(TimeCode) ==> (wr.wdata[old(wr.wlen) + 12] == 0 - asptr(w.SMF.TimeFormat, TimeCode).FramesPerSecond && wr.wdata[old(wr.wlen) + 13] == asptr(w.SMF.TimeFormat, TimeCode).SubFrames)
 
 // ---- the track writer. Representation invariant of a writer:
-//@ macro writerInv(w) = w.SMF != nil && w.output != nil && w.output.wr != nil && w.output.wr.wlen >= 0 && len(w.currentChunk.typ) == 4 && w.currentChunk.typ[0] == 0x4D && w.currentChunk.typ[1] == 0x54 && w.currentChunk.typ[2] == 0x72 && w.currentChunk.typ[3] == 0x6B && (w.runningWriter == nil || typeof(w.runningWriter) == typeid(*runningstatus.smfwriter)) && (w.SMF.NoRunningStatus <==> w.runningWriter == nil)
+//@ macro writerInv(w) = w.SMF != nil && w.output != nil && w.output.wr != nil && w.output.wr.wlen >= 0 && typeof(w.output.wr) != typeid(*wrWrapper) && len(w.currentChunk.typ) == 4 && w.currentChunk.typ[0] == 0x4D && w.currentChunk.typ[1] == 0x54 && w.currentChunk.typ[2] == 0x72 && w.currentChunk.typ[3] == 0x6B && (w.runningWriter == nil || typeof(w.runningWriter) == typeid(*runningstatus.smfwriter)) && (w.SMF.NoRunningStatus <==> w.runningWriter == nil)
 // running status of the chunk under construction (0 = none / switched off)
 //@ macro wrs(w) = (w.runningWriter == nil ? 0 : asptr(w.runningWriter, runningstatus.smfwriter).status)
 
@@ -1148,10 +1145,11 @@ func verifPartitionSMF(m Message) (n int) {
 //@ requires s != nil
 //@ ensures [P:C03] fresh(result) && result.SMF == s && result.output != nil && fresh(result.output) && result.output.wr == output && result.output.size == 0
 //@ ensures [P:C03] len(result.currentChunk.data) == 0 && result.error == nil && !result.headerWritten && result.deltatime == 0
-//@ ensures [P:C03] output != nil && output.wlen >= 0 ==> (writerInv(result) && wrs(result) == 0)
+//@ ensures [P:C03] output != nil && output.wlen >= 0 && typeof(output) != typeid(*wrWrapper) ==> (writerInv(result) && wrs(result) == 0)
 
 // WriteHeader: writes the header once; a failure is latched in w.error
 //@ func (*writer).WriteHeader
+//@ inlines (*writer).writeHeader, (*chunk).WriteTo
 //@ requires writerInv(w) && (typeof(w.SMF.TimeFormat) == typeid(MetricTicks) || typeof(w.SMF.TimeFormat) == typeid(TimeCode))
 //@ modifies w.headerWritten, w.error, w.output.size, w.output.wr.wdata, w.output.wr.wlen, w.output.wr.wfailed
 //@ ensures [P:C10] !old(w.headerWritten) && result == nil ==> w.output.wr.wlen == old(w.output.wr.wlen) + 14
@@ -1178,10 +1176,11 @@ func verifPartitionSMF(m Message) (n int) {
 // prepares the writer for the next track: empty body, delta 0, fresh running status.
 // (It is only ever called with wr = w.output; calls on an io.Writer whose dynamic type is *wrWrapper are
 // executed as (*wrWrapper).Write, all others by the abstract io.Writer contract.)
-//@ devirt iface:io.Writer.Write *smf.wrWrapper
 //@ macro snk(w) = w.output.wr
 
 //@ func (*writer).writeChunkTo
+//@ inlines (*chunk).WriteTo
+//@ devirt iface:io.Writer.Write *smf.wrWrapper
 //@ requires writerInv(w) && typeof(wr) == typeid(*wrWrapper) && asptr(wr, wrWrapper) == w.output && len(w.currentChunk.data) < 2147483648
 //@ modifies w.currentChunk, w.deltatime, w.tracksProcessed, w.runningWriter, w.output.size, w.output.wr.wdata, w.output.wr.wlen, w.output.wr.wfailed
 //@ ensures [P:C10] err == nil ==> (snk(w).wlen == old(snk(w).wlen) + 8 + old(len(w.currentChunk.data)) && snk(w).wfailed == old(snk(w).wfailed))
@@ -1230,7 +1229,8 @@ func verifPartitionSMF(m Message) (n int) {
 //@ ensures [P:C01] old(wfTrack(*t)) ==> wfTrack(*t)
 //@ loop 0 invariant -1 <= rangeindex && rangeindex < len(msgs)
 //@ loop 0 invariant !old(len(*t) > 0 && isEOT((*t)[len(*t)-1].Message))
-//@ loop 0 invariant len(*t) == old(len(*t)) + rangeindex + 1 && forall i int :: 0 <= i && i < old(len(*t)) ==> (*t)[i] == old((*t)[i])
+//@ loop 0 invariant len(*t) == old(len(*t)) + rangeindex + 1
+//@ loop 0 invariant forall i int :: 0 <= i && i < old(len(*t)) ==> (*t)[i] == old((*t)[i])
 //@ loop 0 invariant forall k int :: 0 <= k && k <= rangeindex ==> ((*t)[old(len(*t)) + k].Message == msgs[k] && (*t)[old(len(*t)) + k].Delta == (k == 0 ? old(deltaticks) : 0))
 //@ loop 0 invariant deltaticks == (rangeindex + 1 == 0 ? old(deltaticks) : 0)
 //@ loop 0 invariant old(wfTrack(*t)) ==> forall i int :: 0 <= i && i < len(*t) ==> !isEOT((*t)[i].Message)
@@ -1244,7 +1244,7 @@ func verifPartitionSMF(m Message) (n int) {
 //@ macro wtInv(s, wr, f) = writerInv(wr) && wr.SMF == s && wr.output.wr == f && wr.headerWritten && wr.error == nil && len(s.Tracks) == old(len(s.Tracks)) && s.TimeFormat == old(s.TimeFormat) && f.wlen >= old(f.wlen) && wr.output.size == int64(f.wlen - old(f.wlen)) && (forall i int :: 0 <= i && i < old(f.wlen) ==> f.wdata[i] == old(f.wdata[i]))
 
 //@ func (*SMF).WriteTo
-//@ requires f != nil && f.wlen >= 0 && tracksOK(s) && (typeof(s.TimeFormat) == typeid(MetricTicks) || typeof(s.TimeFormat) == typeid(TimeCode))
+//@ requires f != nil && f.wlen >= 0 && typeof(f) != typeid(*wrWrapper) && tracksOK(s) && (typeof(s.TimeFormat) == typeid(MetricTicks) || typeof(s.TimeFormat) == typeid(TimeCode))
 //@ requires forall i int :: 0 <= i && i < len(s.Tracks) ==> len(s.Tracks[i]) < 20000
 // (the auto-close of open tracks in the first loop is covered by the contract of Track.Close; the file-level
 // clauses below are proved for values whose tracks are already closed, so that the first loop changes nothing)
